@@ -133,7 +133,15 @@ pub mod writers {
         pub fn flush(&self) -> (r: std::io::Result<()>) { unimplemented!() }
         #[verifier::external_body]
         pub fn shutdown(&self) { unimplemented!() }
+        #[verifier::external_body]
+        pub fn existing_log_files(&self, selector: &LogfileSelector) -> (r: Result<Vec<std::path::PathBuf>, FlexiLoggerError>)
+            ensures r == fw_elf_result(selector)
+        { unimplemented!() }
     }
+    pub struct LogfileSelector { _o: () }
+    pub enum FlexiLoggerError { Poison, Other }
+    /// oracle: the file writer's listing for a selector (unit `flw`)
+    pub uninterp spec fn fw_elf_result(selector: &LogfileSelector) -> Result<Vec<std::path::PathBuf>, FlexiLoggerError>;
     /// SHIM for `trait LogWriter`
     pub trait LogWriter: Send + Sync {
         spec fn wid(&self) -> int;
@@ -151,7 +159,7 @@ pub mod multi_writer {
     use super::level_axioms::*;
     use super::{logger::Duplicate, util::{eprint_err, write_buffered, ErrorCode}, writers::*, deferred_now::DeferredNow, formats::*};
     use log::Record;
-    use std::{io::Write, sync::atomic::{AtomicU8, Ordering}};
+    use std::{io::Write, path::PathBuf, sync::atomic::{AtomicU8, Ordering}};
     broadcast use group_level_axioms, ax_fmt_req_all_cow_str, vstd::std_specs::fmt::group_fmt_axioms;
 
     //@ item src/primary_writer/multi_writer.rs struct MultiWriter
@@ -194,6 +202,13 @@ pub mod multi_writer {
     //@   rule R11 1
     //@   req[adapt_stdout.pre.distinct] self.err_id() != self.out_id()
     //@   req[adapt_stdout.pre.perm] forall|id: int, v: u8| #[trigger] store_ok(id, v) <==> (id == self.out_id() && v == MultiWriter::dup_code(dup))
+    }
+    impl MultiWriter {
+        pub closed spec fn has_file_writer(&self) -> bool { self.o_file_writer is Some }
+    //@ fn src/primary_writer/multi_writer.rs impl MultiWriter / fn existing_log_files
+    //@   ret r
+    //@   props C16
+    //@   ens[MultiWriter::existing_log_files.post] if self.has_file_writer() { r == fw_elf_result(selector) } else { r is Ok && r->Ok_0@.len() == 0 }
     }
     // R9: methods of `impl LogWriter for MultiWriter` emitted as inherent methods
     impl MultiWriter {
